@@ -71,7 +71,9 @@ func init() {
 		ID: "T01", NeedCG: true, Quick: cfgAMD, Thorough: cfgAll,
 		Explanation: "scratch",
 		Run: func(w *World, r *Report, tier string) {
-			guard(r, "RANGE", func() { ruleRANGE(w, r, []string{"gf2p16", "gf2", "rsec16", "par1", "par2", "cmd/par"}, 10) })
+			guard(r, "WIRE", func() { ruleWIRE(w, r) })
+			guard(r, "SHLEN", func() { ruleSHLEN(w, r) })
+			guard(r, "MKLEN", func() { ruleMKLEN(w, r) })
 		},
 	})
 }
